@@ -137,11 +137,18 @@ def declaration_cases(acc, ctx):
         ("a", {"p.a": ct.IntType}, {"p.a": ("int", 11), "a": ("int", 12)}, ("V", ("int", 11))),
         ("a", {"a": ct.IntType}, {"p.a": ("int", 11), "a": ("int", 12)}, ("V", ("int", 11))),
         ("a", {"p.a": ct.IntType}, {"a": ("int", 12)}, None),
+        # the package has the same name as a bound variable (what the CLI does with package "jq")
+        ("p", {}, {"p": ("int", 5)}, ("V", ("int", 5))),
+        ("p + 1", {}, {"p": ("int", 5)}, ("V", ("int", 6))),
+        ("p.a", {}, {"p": ("map", ((("string", "a"), ("int", 8)),))}, ("V", ("int", 8))),
+        ("a", {}, {"p": ("map", ((("string", "a"), ("int", 8)),))}, ("V", ("int", 8))),
+        ("p.a", {}, {"p": ("int", 5)}, ("E",)),
+        ("p", {}, {"p": ("string", "s"), "p.a": ("int", 1)}, None),
     ]
     for i, (src, ann, binds, exp) in enumerate(cases):
         if not ctx.mine(i):
             continue
-        pkg = "p" if any(k.startswith("p.") for k in list(ann) + list(binds)) else None
+        pkg = "p" if any(k.startswith("p.") or k == "p" for k in list(ann) + list(binds)) else None
         for with_decl in (True, False):
             for r in "IC":
                 out = core.api_eval(r, src, MV.cel_env(binds), annotations=dict(ann) if with_decl else None, package=pkg)
